@@ -1200,6 +1200,42 @@ func (b *boundsAn) indexFitsArray(ins ssa.Instruction, idx ssa.Value) bool {
 	return bitsN < 62 && int64(1)<<uint(bitsN) <= arr.Len()
 }
 
+// indexesLocallyGrownSlice: the sink indexes a slice that the enclosing function itself extends with append (a field
+// or cell that receives append results). For such a container a bound on the loop counter says nothing about the
+// container's length; only the append discipline (indexIntoGrownSlice) or a test of its len() does.
+func indexesLocallyGrownSlice(ins ssa.Instruction) bool {
+	ia, ok := ins.(*ssa.IndexAddr)
+	if !ok {
+		return false
+	}
+	ld, ok := ia.X.(*ssa.UnOp)
+	if !ok || ld.Op != token.MUL {
+		return false
+	}
+	found := false
+	allInstrs(ia.Parent(), func(in ssa.Instruction) {
+		st, ok := in.(*ssa.Store)
+		if !ok {
+			return
+		}
+		same := st.Addr == ld.X
+		if fa, ok1 := st.Addr.(*ssa.FieldAddr); ok1 {
+			if fb, ok2 := ld.X.(*ssa.FieldAddr); ok2 && fa.Field == fb.Field && sameBase(fa.X, fb.X) {
+				same = true
+			}
+		}
+		if !same {
+			return
+		}
+		if c, ok := st.Val.(*ssa.Call); ok {
+			if bi, ok := c.Call.Value.(*ssa.Builtin); ok && bi.Name() == "append" {
+				found = true
+			}
+		}
+	})
+	return found
+}
+
 // indexIntoGrownSlice: the sink is s[i-c] (c >= 0 constant) where i counts the iterations of the enclosing loop from a
 // non-negative constant in steps of one, and s is a field (or local cell) that the loop extends by one append in every
 // iteration before the index is evaluated and before i is incremented: at the sink len(s) >= i+1 whatever the loop's
